@@ -73,12 +73,18 @@ public:
 	JW* w;
 	Interpreter* interp;
 	bool cfgInCallbacks;
+	bool ts;
 	std::string mainSession;
-	RecMonitor(JW* w_) : w(w_), interp(NULL), cfgInCallbacks(false) {}
+	RecMonitor(JW* w_) : w(w_), interp(NULL), cfgInCallbacks(false), ts(false) {}
+	void stamp() {
+		if (ts) w->num(std::chrono::duration_cast<std::chrono::microseconds>(std::chrono::steady_clock::now().time_since_epoch()).count());
+	}
 
 	void sess(const std::string& sessionId) {
 		// record the session only for invoked children (different from the main one)
 		if (mainSession.size() && sessionId != mainSession) w->str("@" + sessionId);
+		else if (ts) w->str("");
+		stamp();
 	}
 #define LOCK std::lock_guard<std::recursive_mutex> lock(g_recMutex)
 	void ev0(const char* n, const std::string& s) { LOCK; w->beginArr().str(n); sess(s); w->endArr(); }
@@ -323,6 +329,13 @@ static std::string cmdValidate(const std::vector<std::string>& a) {
 
 static std::string cmdPing(const std::vector<std::string>& a) {
 	return "{\"pong\":true}";
+}
+
+InterpreterMonitor* newRecMonitor(JW* w, bool copyToInvokers, bool timestamps) {
+	RecMonitor* m = new RecMonitor(w);
+	m->ts = timestamps;
+	m->copyToInvokers(copyToInvokers);
+	return m;
 }
 
 void registerCoreCmds() {
